@@ -23,7 +23,10 @@ def u16len(s):
     return sum(2 if ord(c) >= 0x10000 else 1 for c in s)
 
 
-def reference(text, maxcol):
+BIGC = [2147483647, 2147483648, 4294967290, 4294967291, 4294967292, 4294967293, 4294967294, 4294967295]
+
+
+def reference(text, maxcol, big=False):
     """independent reference written from the property text (see DESIGN C10 for the clamp choice)"""
     b = []  # (offset, line, col)
     off, line, col = 0, 0, 0
@@ -54,6 +57,14 @@ def reference(text, maxcol):
                 else:
                     o = max(o2 for (o2, cc) in on_line if cc <= c)
             bw.append("%d,%d=%d" % (l, c, o))
+    if big:
+        # a column past the end of a line means the line end (= where the next line starts, or the end of the text); a line
+        # past the last one means the end of the text
+        for l in list(range(nl + 2)) + [4294967295]:
+            nxt = [o2 for (o2, ln, _) in b if ln == l + 1]
+            o = total if not [1 for (_, ln, _) in b if ln == l] else (min(nxt) if nxt else total)
+            for c in BIGC:
+                bw.append("%d,%d=%d" % (l, c, o))
     return "T %s F %s" % (fw, ";".join(bw))
 
 
@@ -105,6 +116,16 @@ def run(ck):
         cmd_of = lambda t: "li %s %d" % (hexs(t), min(u16len(t) + 2, 40))
         a, b = core.compare(ck, name, texts, cmd_of)
         allo = core.impl(["li %s 0 all" % hexs(t) for t in texts], tag="all" + name)
+        # columns and lines at the ends of the u32 range (`u32::MAX` is what clients send for "end of line"): model vs implementation
+        if name != "exhaustive" or len(texts[0]) <= 3:
+            bt = [t for t in texts if len(t) <= 64]
+            ba, _ = core.compare(ck, name + ":big", bt, lambda t: "li %s 0 big" % hexs(t), counted=True)
+            for t, r in zip(bt, ba):
+                exp = reference(t, 0, big=True)
+                if r != exp:
+                    ck.fail(["C10", "position-big", t if len(t) <= 12 else core.sig_hash(t)],
+                            "a column / line at the end of the u32 range is not clamped to the line end / text end for text %r" % t[:40],
+                            {"cmd": "li", "text_hex": hexs(t), "maxcol": 0, "big": True}, observed=r[-400:], expected=exp[-400:])
         nontriv = set()
         for t, ra, rall in zip(texts, a, allo):
             if any(ord(c) > 127 or c in "\r\n" for c in t):
